@@ -192,6 +192,9 @@ type world struct {
 	insts    []*inst
 	recs     []*recOp
 	zeros    []*recOp // zero-valued measurements on sum instruments
+	// periodic reader: configured export timeout; (simulated) instant at which the previous export ended
+	perTimeout time.Duration
+	perLastEnd time.Time
 	colls    []*collection
 	nColl    map[string]int
 	limit    int
@@ -237,6 +240,16 @@ func (x *exporter) Export(ctx context.Context, rm *metricdata.ResourceMetrics) e
 	c.idx = w.nColl["P"]
 	w.colls = append(w.colls, c)
 	w.r.Log("%d periodic-export #%d task=%s %s", c.ret, c.idx, w.sim.CurrentTask(), summarize(c.data))
+	// An export driven by the reader's own ticker runs under the configured export timeout, counted from the
+	// start of its collection, which cannot lie before the end of the previous export: a deadline earlier
+	// than (end of previous export + timeout) cuts a slow but timely export short, and what it carried is
+	// lost (after seeded change C02-f).
+	if strings.HasPrefix(w.sim.CurrentTask(), "go@") {
+		if dl, ok := ctx.Deadline(); !ok || dl.Before(w.perLastEnd.Add(w.perTimeout)) {
+			w.r.Violate("C02", "export-deadline-early", "export-deadline-early", "interval export #%d: the context's deadline is %v after the end of the previous export, the configured export timeout is %v (interval %v)", c.idx, dl.Sub(w.perLastEnd), w.perTimeout, w.interval)
+		}
+	}
+	defer func() { w.perLastEnd = time.Now() }()
 	return w.r.Behave(ctx, "metric-export", w.faulty, w.delays)
 }
 func (x *exporter) ForceFlush(context.Context) error { return nil }
@@ -538,6 +551,7 @@ func (engine) Body(r *simdrv.Run) {
 	}
 	var pr *sdkmetric.PeriodicReader
 	if usePeriodic {
+		w.perTimeout, w.perLastEnd = perTimeout, time.Now()
 		pr = sdkmetric.NewPeriodicReader(&exporter{w: w}, sdkmetric.WithInterval(w.interval), sdkmetric.WithTimeout(perTimeout))
 		opts = append(opts, sdkmetric.WithReader(pr))
 		w.perLast = sim.Stamp()
@@ -719,10 +733,21 @@ func (engine) Body(r *simdrv.Run) {
 			}
 		})
 	}
+	// Half of the collections reuse the ResourceMetrics of the previous collection of the same task and
+	// reader (as the periodic reader and most exporters do) instead of a fresh one: whatever the SDK fails to
+	// overwrite or truncate there shows up as data (after seeded change C08-f).
+	reused := map[string]*metricdata.ResourceMetrics{}
 	collect := func(task, reader string, joint int) *collection {
 		c := &collection{reader: reader, joint: joint, how: "collect", cycle: w.cycle}
 		w.curColl[task] = c
-		var rm metricdata.ResourceMetrics
+		rmp := &metricdata.ResourceMetrics{}
+		if sim.Draw(2) == 0 {
+			if reused[task+reader] == nil {
+				reused[task+reader] = rmp
+			}
+			rmp = reused[task+reader]
+			r.Fault("collect-into-reused-resourcemetrics")
+		}
 		c.inv = sim.Stamp()
 		r.Log("%d collect-invoke %s reader=%s joint=%d", c.inv, task, reader, joint)
 		rdr := rd
@@ -749,14 +774,14 @@ func (engine) Body(r *simdrv.Run) {
 				r.Fault("collect-cancelled-midway")
 			}
 		}
-		c.err = rdr.Collect(ctx, &rm)
+		c.err = rdr.Collect(ctx, rmp)
 		cancel()
 		if c.err != nil {
 			r.Fault("collect-returned-error")
 		}
 		c.ret = sim.Stamp()
 		delete(w.curColl, task)
-		c.data = extract(&rm)
+		c.data = extract(rmp)
 		w.nColl[reader]++
 		c.idx = w.nColl[reader]
 		w.colls = append(w.colls, c)
